@@ -778,13 +778,13 @@ var c18numArrs = []string{"AF", "[0.5, 1.5, 2]", "map(AI, {# / 2})", "filter(AF,
 
 var c18intPreds = []string{"# > 1", "# % 2 == 0", "IsPos(#)", "IsPos(Inc(#))", "# in 2..3", "# == I", "not (# < 3)", "# > 0 and IsPos(#)",
 	"any(AI, {# == 2})", "count(1..3, {# >= 2}) == 2", "# in AI", "all(0..#, {# >= 0})", "len(filter(0..#, {# % 2 == 1})) > 0",
-	"one(AI, {# == 3}) or # > 2", "#", "nil", "Inc(#) > 2", "IsPos(#) or IsPos(Inc(#))", "# / (# - 2) > 0", "true", "false", "B", "none(AS, {len(#) == I})"}
+	"one(AI, {# == 3}) or # > 2", "B2 ? # > 2 : # > 0", "B ? # > 2 : # > 0", "(B2 and # > 100) or # != 1", "(false and # > 0) or # > 1", "B2 ? # % 2 == 0 : # > I", "#", "nil", "Inc(#) > 2", "IsPos(#) or IsPos(Inc(#))", "# / (# - 2) > 0", "true", "false", "B", "none(AS, {len(#) == I})"}
 var c18strPreds = []string{`# == "a"`, "len(#) > 1", `# startsWith "a"`, "# in AS", "# contains S2", `# matches "^a"`, `# < "b"`, "#", "true",
 	`any(AS, {# == "abc"})`, `count(AS, {# == S2}) == 1`, `IsPos(len(#))`, `# + "c" endsWith "bc"`}
 var c18anyPreds = []string{"# != nil", "# == 1", `# == "a"`, `# in [1, "a"]`, "true", "false", "# == nil or # == true", "#", `any(AA, {# == nil})`, "B2", `# == Any`}
 var c18numPreds = []string{"# > 1", "# >= 0.5", "# < F64", "# * 2 == 3", "true", "#"}
 
-var c18intMappers = []string{"# * 2", "Inc(#)", "# + I", "[#, #]", "count(0..#, {# > 1})", "#", `"x"`, "Inc(#) % (# - 2)", "# / 0", "filter(AI, {# > 1})", "IsPos(#) ? # : nil", "nil"}
+var c18intMappers = []string{"B2 ? # * 2 : #", "B ? # * 2 : #", "(B2 and # > 9) or # > 1", "# * 2", "Inc(#)", "# + I", "[#, #]", "count(0..#, {# > 1})", "#", `"x"`, "Inc(#) % (# - 2)", "# / 0", "filter(AI, {# > 1})", "IsPos(#) ? # : nil", "nil"}
 var c18strMappers = []string{"len(#)", `# + "z"`, "#", "Concat(#, S)", "#[0:1]", "# in AS"}
 var c18anyMappers = []string{"#", "# == nil", "Id(#)", "[#]", "1", "Boom(1)"}
 
